@@ -134,9 +134,13 @@ def bootstrap_ci(
 
         ci = np.empty((metric_size, 2))
         for j in range(metric_size):
-            ci[j] = np.nanquantile(
-                theta[:, j], q=[alpha_hat_lower[j], alpha_hat_upper[j]], axis=0
-            )
+            if nb_not_nan[j] == 0:
+                # No replicate to take quantiles of, same result as the quantile method
+                ci[j] = np.nan
+            else:
+                ci[j] = np.nanquantile(
+                    theta[:, j], q=[alpha_hat_lower[j], alpha_hat_upper[j]], axis=0
+                )
         ci = np.reshape(ci, (*metric_shape, 2))
     else:
         raise ValueError(f"Unknown value for bootstrap_method: {method}")
